@@ -162,6 +162,9 @@ def get_attr(eng, o, attr, node):
 def _as_int(v):
     from .reclist import OptV
 
+    if isinstance(v, SOpq) and V.ENGINE is not None and getattr(V.ENGINE, "abstract", False):
+        # an opaque value used as a number: its integer value (abstract mode)
+        return SInt(V.uf("to_int", V.vsort(), z3.IntSort())(v.t))
     if isinstance(v, OptV):
         eng = V.ENGINE
         return eng.unopt(v) if eng is not None else v.val
@@ -1439,12 +1442,20 @@ def _sum(eng, args, kwargs, node):
 
 @ext("any")
 def _any(eng, args, kwargs, node):
+    if isinstance(args[0], SOpq) and eng.abstract:
+        r = SBool(V.uf("any_of", V.vsort(), z3.BoolSort())(args[0].t))
+        eng.event("pure", "any", None, args, {}, node, r)
+        return r
     items = eng.static_items(args[0])
     return V.Or(*[V.truthy(e) for e in items]) if items else False
 
 
 @ext("all")
 def _all(eng, args, kwargs, node):
+    if isinstance(args[0], SOpq) and eng.abstract:
+        r = SBool(V.uf("all_of", V.vsort(), z3.BoolSort())(args[0].t))
+        eng.event("pure", "all", None, args, {}, node, r)
+        return r
     items = eng.static_items(args[0])
     return V.And(*[V.truthy(e) for e in items]) if items else True
 
